@@ -84,6 +84,7 @@ class C15:
         base_rc = base["rc"]
         base_tree = strip_comments(dump_to_plain(res[0]["dump"]["tree"]))
         fails, keys, cc = [], [], {}
+        crashed_already = [False]
         annot = []
         for sub, mt, rs in zip(subs[1:], meta[1:], res[1:]):
             ti, fi = mt
@@ -97,7 +98,10 @@ class C15:
                 keys.append(h64(sub["text"]))
             e = rs["parse"]
             sig = msg = None
+            if e is None and crashed_already[0]:
+                continue            # only the first sub-case without a result is the victim of the crash
             if e is None:
+                crashed_already[0] = True
                 sig, msg = "die/%s" % r.death(), "child died: %s\n%s" % (r.death(), r.stderr.decode("latin-1")[:1200])
             elif e["rc"] != base_rc:
                 where = "item-boundary" if at_item else "inside-item"
